@@ -21,10 +21,21 @@ def run(tier):
     stride, offset = (3, vlib.SEED) if tier == "quick" else (1, 0)
     # value sweep (see C01): generator field values that steer a block's layout, found with the current build
     discr = os.path.join(wd, "discr.ndjson")
-    rc, out, err = vlib.run_harness(cur, ["c01-probe", discr, "12", "12" if tier == "quick" else "0"], timeout=3000)
-    if rc != 0:
-        raise vlib.InfraError("c01-probe failed: " + err[-500:])
-    ck.cov["value_sweep_settings"] = json.loads(out.strip().splitlines()[-1])["settings"]
+    # (by both builds: a value whose section one build lost looks plain to that build)
+    found = []
+    for who, exe in (("cur", cur), ("ref", ref)):
+        part = discr + "." + who
+        rc, out, err = vlib.run_harness(exe, ["c01-probe", part, "12", "12" if tier == "quick" else "0"], timeout=3000)
+        if rc != 0:
+            raise vlib.InfraError("c01-probe(%s) failed: %s" % (who, err[-500:]))
+        for l in open(part):
+            d = json.loads(l)
+            d.pop("why", None)
+            found.append(json.dumps(d, sort_keys=True))
+    uniq = sorted(set(found))
+    with open(discr, "w") as f:
+        f.write("".join(u + "\n" for u in uniq))
+    ck.cov["value_sweep_settings"] = len(uniq)
     lists = {}
     for who, exe in (("ref", ref), ("cur", cur)):
         d = os.path.join(wd, who)
